@@ -684,6 +684,17 @@ def c04(payload):
                 if np.abs(H - Href).max() > 1e-2 * np.abs(Href).max():
                     bad.append('H deviates from curl A / mu0 of the solved currents: at %r by %.3g relative' % (
                         [round(float(x), 4) for x in c], np.abs(H - Href).max() / np.abs(Href).max()))
+            # a requested power level scales the field by sqrt (P / P_in), P_in = sum Re (V I*) / 2 from the voltages and currents
+            if pts:
+                P_in = sum(0.5 * (complex(s_.voltage) * np.conj(m.current[s_.idx])).real for s_ in m.sources)
+                if P_in > 0:
+                    c = pts[0]; Pq = 10 ** rng.uniform(-1, 2)
+                    m.compute_near_field(list(c), [1.0, 1.0, 1.0], [1, 1, 1]); E0 = np.array(m.e_field[0]); H0 = np.array(m.h_field[0])
+                    m.compute_near_field(list(c), [1.0, 1.0, 1.0], [1, 1, 1], Pq); E1 = np.array(m.e_field[0]); H1 = np.array(m.h_field[0])
+                    fac = math.sqrt(Pq / P_in)
+                    if np.abs(E1 - fac * E0).max() > 1e-9 * np.abs(fac * E0).max() or np.abs(H1 - fac * H0).max() > 1e-9 * np.abs(fac * H0).max():
+                        bad.append('near field for a power level of %.6g W is not sqrt (P / P_in) times the field of the solved currents (P_in = sum Re (V I*) / 2 = %.6g W): '
+                                   'ratio %.6g instead of %.6g' % (Pq, P_in, np.abs(E1).max() / np.abs(E0).max(), fac))
             # far zone: merges into the reported far field, transverse, E/H = 376.7
             # far enough that the offset of the antenna from the origin (the far field's reference point) is below 1 %
             ext = float(np.abs(allp).max()) + maxseg
